@@ -51,6 +51,8 @@ def to_sympy(t, syms, assumptions):
             return ch[0]
         if k == z3.Z3_OP_UNINTERPRETED:
             n = x.decl().name()
+            if n == "recip":
+                return 1 / ch[0]
             table = {"exp": sp.exp, "log": sp.log, "sqrt": sp.sqrt, "sin": sp.sin, "cos": sp.cos, "tanh": sp.tanh,
                      "erf": sp.erf, "pow": lambda a, b: a ** b}
             if n in table:
